@@ -43,15 +43,19 @@ pub struct Ins {
 pub struct Sc {
     pub server_role: bool,
     pub ins: Vec<Ins>,
+    /// 0: every stream write of the raw peer is one write; n > 0: it is cut into n-byte pieces with a pause of virtual time
+    /// in between, so that every piece travels in a packet of its own and the reader sees short reads inside skipped payloads
+    pub seg: usize,
 }
 
 impl Sc {
     pub fn to_json(&self) -> Value {
-        json!({"server_role": self.server_role, "ins": self.ins.iter().map(|i| json!({"place": format!("{:?}", i.place), "ty": i.ty, "payload": vx::hex(&i.payload), "mode": i.mode})).collect::<Vec<_>>()})
+        json!({"server_role": self.server_role, "seg": self.seg, "ins": self.ins.iter().map(|i| json!({"place": format!("{:?}", i.place), "ty": i.ty, "payload": vx::hex(&i.payload), "mode": i.mode})).collect::<Vec<_>>()})
     }
     pub fn from_json(v: &Value) -> Sc {
         Sc {
             server_role: v["server_role"].as_bool().unwrap(),
+            seg: v["seg"].as_u64().unwrap_or(0) as usize,
             ins: v["ins"].as_array().unwrap().iter().map(|i| Ins {
                 place: PLACES.into_iter().find(|p| format!("{p:?}") == i["place"].as_str().unwrap()).unwrap(),
                 ty: i["ty"].as_u64().unwrap(),
@@ -72,6 +76,17 @@ fn frames_for(ins: &[Ins], place: Place) -> Vec<u8> {
         }
     }
     out
+}
+
+async fn write_seg(s: &mut quinn::SendStream, bytes: &[u8], seg: usize) -> Result<(), String> {
+    if seg == 0 || bytes.is_empty() {
+        return s.write_all(bytes).await.map_err(|e| format!("{e:?}"));
+    }
+    for piece in bytes.chunks(seg) {
+        s.write_all(piece).await.map_err(|e| format!("{e:?}"))?;
+        settle_ms(3).await;
+    }
+    Ok(())
 }
 
 async fn uni_streams(raw: &Raw, ins: &[Ins]) -> Result<(), String> {
@@ -120,12 +135,14 @@ pub async fn run(sc: Sc) -> Result<String, String> {
         };
         let client = async {
             let raw = Raw::connect(&world, &tw).await?;
-            let ctrl = raw.open_uni_with(&ctrl_bytes).await?;
+            let mut ctrl = raw.open_uni_with(&[]).await?;
+            write_seg(&mut ctrl, &ctrl_bytes, sc.seg).await?;
             raw.hold(ctrl);
             uni_streams(&raw, &sc.ins).await?;
             let mut body = before_headers.clone();
             body.extend(rc::headers_frame(&rc::connect_request_fields("localhost", "/c13")));
-            let (s, r) = raw.open_bi_with(&body).await?;
+            let (mut s, r) = raw.open_bi_with(&[]).await?;
+            write_seg(&mut s, &body, sc.seg).await?;
             let mut rd = FrameReader::new(r);
             let resp = within(8_000, rd.next_non_grease()).await;
             raw.hold(rd.recv);
@@ -149,7 +166,8 @@ pub async fn run(sc: Sc) -> Result<String, String> {
         let client_ep = world.wt_client(&tw);
         let server = async {
             let raw = Raw::accept(raw_ep).await?;
-            let ctrl = raw.open_uni_with(&ctrl_bytes).await?;
+            let mut ctrl = raw.open_uni_with(&[]).await?;
+            write_seg(&mut ctrl, &ctrl_bytes, sc.seg).await?;
             raw.hold(ctrl);
             uni_streams(&raw, &sc.ins).await?;
             let (mut s, r) = within(8_000, raw.conn.accept_bi()).await.ok_or("no request stream")?.map_err(|e| format!("{e:?}"))?;
@@ -158,7 +176,7 @@ pub async fn run(sc: Sc) -> Result<String, String> {
             raw.hold(rd.recv);
             let mut body = before_headers.clone();
             body.extend(rc::headers_frame(&rc::response_fields("200")));
-            s.write_all(&body).await.map_err(|e| format!("{e:?}"))?;
+            write_seg(&mut s, &body, sc.seg).await?;
             Ok::<_, String>((raw, s))
         };
         let connect = async { within(10_000, client_ep.connect("https://localhost/c13")).await };
@@ -199,7 +217,7 @@ pub async fn run(sc: Sc) -> Result<String, String> {
     });
     let early = frames_for(&sc.ins, Place::SessEarly);
     if !early.is_empty() {
-        sess_send.write_all(&early).await.map_err(|e| format!("write on session stream: {e:?}"))?;
+        write_seg(&mut sess_send, &early, sc.seg).await.map_err(|e| format!("write on session stream: {e}"))?;
     }
     let mut b = wt_uni_preamble(sid);
     b.extend_from_slice(b"probe");
@@ -211,7 +229,7 @@ pub async fn run(sc: Sc) -> Result<String, String> {
     let n_streams = got.lock().unwrap().len();
     let mut tail = frames_for(&sc.ins, Place::SessLate);
     tail.extend(rc::close_capsule_frame(7, b"bye"));
-    let w = sess_send.write_all(&tail).await;
+    let w = write_seg(&mut sess_send, &tail, sc.seg).await;
     settle_ms(1_000).await;
     let end = closed.lock().unwrap().clone();
     app.abort();
@@ -235,7 +253,7 @@ fn baseline(server_role: bool) -> String {
     if let Some(b) = &BASE.lock().unwrap()[idx] {
         return b.clone();
     }
-    let (r, _) = exec_raw(&Sc { server_role, ins: vec![] });
+    let (r, _) = exec_raw(&Sc { server_role, ins: vec![], seg: 0 });
     let v = r.unwrap_or_else(|e| format!("harness-error[{e}]"));
     BASE.lock().unwrap()[idx] = Some(v.clone());
     v
@@ -309,7 +327,16 @@ pub fn scenarios(tier: Tier) -> Vec<Sc> {
             if !thorough && s.payload.len() > 100 && k % 3 != 0 {
                 continue;
             }
-            out.push(Sc { server_role: role, ins: vec![s.clone()] });
+            out.push(Sc { server_role: role, ins: vec![s.clone()], seg: 0 });
+            // the same insertion with the peer's writes cut into small pieces (short reads inside the skipped element)
+            if !s.payload.is_empty() && s.place != Place::Setting && (thorough || k % 2 == 0) {
+                for seg in if thorough { vec![1usize, 2, 5, 300] } else { vec![1usize, 5] } {
+                    if s.payload.len() > 100 && seg < 5 {
+                        continue;
+                    }
+                    out.push(Sc { server_role: role, ins: vec![s.clone()], seg });
+                }
+            }
         }
         // two and three insertions: a representative per place, all combinations of places
         let reps: Vec<Ins> = vec![
@@ -326,10 +353,10 @@ pub fn scenarios(tier: Tier) -> Vec<Sc> {
         ];
         for a in 0..reps.len() {
             for b in a..reps.len() {
-                out.push(Sc { server_role: role, ins: vec![reps[a].clone(), reps[b].clone()] });
+                out.push(Sc { server_role: role, ins: vec![reps[a].clone(), reps[b].clone()], seg: if (a + b) % 4 == 0 { 2 } else { 0 } });
                 for c in b..reps.len() {
                     if thorough || (a + b + c) % 4 == 0 {
-                        out.push(Sc { server_role: role, ins: vec![reps[a].clone(), reps[b].clone(), reps[c].clone()] });
+                        out.push(Sc { server_role: role, ins: vec![reps[a].clone(), reps[b].clone(), reps[c].clone()], seg: if (a + b + c) % 4 == 0 { 3 } else { 0 } });
                     }
                 }
             }
